@@ -5,7 +5,8 @@
    Only statements, `exact`, Print Assumptions and non-vacuity examples here. *)
 From Coq Require Import ZArith List Bool.
 From PCB Require Import lib.Result lib.PyInt gen.Gen_state model.Crc32 model.StateFile model.Resume
-  model.ReopenFile proofs.Crc32_proofs proofs.StateFile_proofs proofs.Resume_proofs proofs.ReopenFile_proofs.
+  model.ReopenFile model.TextStream proofs.Crc32_proofs proofs.StateFile_proofs proofs.Resume_proofs
+  proofs.ReopenFile_proofs proofs.TextStream_proofs.
 Import ListNotations.
 Open Scope Z_scope.
 
@@ -134,6 +135,21 @@ Print Assumptions C40_reopened_read_file.
 Example C40_reopened_empty_append : reopen false true 0 [26] = ([], 0) /\
   reopen false true 3 [97; 13; 10; 26] = ([97; 13; 10], 3) /\ reopen true false 0 [26] = ([], 0).
 Proof. repeat split. Qed.
+
+(* text input state of a RANDOM file's record buffer (FieldFile.__getstate__/__setstate__, hand model tied by
+   correspondence): for every buffer, stream position and read-ahead, the characters the next INPUT# / LINE INPUT# /
+   INPUT$ will see and the logical record position are the same after unpickling *)
+Theorem C40_field_text_state_preserved : forall s,
+  pending (field_roundtrip s) = pending s /\ logical_pos (field_roundtrip s) = logical_pos s.
+Proof. exact field_roundtrip_pending. Qed.
+Print Assumptions C40_field_text_state_preserved.
+
+(* seeded change C40e: record " 12  34  56 ", first item read, the blank after it held as read-ahead *)
+Example C40_field_logical_variant_refuted :
+  let s := TS [32;49;50;32;32;51;52;32;32;53;54;32;13;10] 4 [32] in
+  pending s = [32;32;51;52;32;32;53;54;32;13;10] /\
+  pending (field_setstate (t_buf s) (field_getstate_logical s)) = [32;32;32;51;52;32;32;53;54;32;13;10].
+Proof. split; reflexivity. Qed.
 
 (* ---------------- non-vacuity ---------------- *)
 Example C40_nonvacuous_file :
